@@ -33,7 +33,7 @@ Say(kind, idx, clause) == PrintT(ToJson(<<"R", kind, idx, clause>>))      \* one
 RECURSIVE JoinNames(_)
 JoinNames(s) == IF s = << >> THEN "" ELSE IF Len(s) = 1 THEN s[1] ELSE s[1] \o "+" \o JoinNames(Tail(s))
 \* the names of a set of deviation families, in a fixed order, joined with "+"
-Order == <<"json-nonfinite-float", "json-raw-line-break", "json-unescaped-nonprintable-rejected", "loader-float-dot-underscore",
+Order == <<"decimal-serialised-as-float", "json-nonfinite-float", "json-raw-line-break", "json-unescaped-nonprintable-rejected", "loader-float-dot-underscore",
            "loader-float-without-dot-or-signed-exponent", "nel-folded-in-single-quoted-scalar",
            "union-enum-member-serialises-anything",
            "skip-default-equal-but-other-type", "skip-default-inside-dict-value", "skip-default-required-subcommand-raises", "subcommand-selector-not-dumped">>
@@ -69,7 +69,8 @@ ValueHazards(fmt, v) ==
   ELSE IF v.k = "dict" THEN UNION {ValueHazards(fmt, v.v[n][1]) \cup ValueHazards(fmt, v.v[n][2]) : n \in 1..Len(v.v)}
   ELSE IF v.k = "ns" THEN UNION {ValueHazards(fmt, v.v[n][2]) : n \in 1..Len(v.v)}
   ELSE IF v.k = "str" THEN {IF fmt = "yaml" THEN Deviation(v.v) ELSE JsonStrDeviation(v.v)} \ {"none"}
-  ELSE IF v.k = "reg" THEN {IF fmt = "yaml" THEN Deviation(RegText(v)) ELSE JsonStrDeviation(RegText(v))} \ {"none"}
+  ELSE IF v.k = "reg" THEN LET w == RegSer(RegName(v), v) IN
+                           (IF w.k = "str" THEN {IF fmt = "yaml" THEN Deviation(w.v) ELSE JsonStrDeviation(w.v)} \ {"none"} ELSE {}) \cup ValueFamilies(v)
   ELSE IF v.k = "float" /\ fmt # "yaml" THEN {JsonDeviation(v.v)} \ {"none"}
   ELSE {}
 
